@@ -127,3 +127,25 @@ Definition c12_idw_fast := c12_idw_gen c12_idw_point_fast.
 (* ---- dimensions of the result: the input's with the last one replaced by the destination's ---- *)
 Definition c12_out_dims (dims : list c12_dim) (dest : c11_kind) : list c12_dim :=
   removelast dims ++ [c12_dim_of dest].
+
+(* ---- which coordinates the source tree of a remap was built from ----
+   The source grid's coordinates carry a version (bumped by every public mutator: coordinate
+   setters, construct_face_centers, normalize_cartesian_coordinates).  A remap asks the grid for its
+   tree with `reconstruct` as coded; a cached tree keeps the version it was built from. *)
+Inductive c12_op := C12Mutate | C12Remap.
+
+Definition c12_tree_version (reconstruct : bool) (cur : nat) (cache : option nat) : nat :=
+  match cache with
+  | None => cur
+  | Some v => if reconstruct then cur else v
+  end.
+
+(* per remap in the history: (version the tree was built from, current version) *)
+Fixpoint c12_run_ops (reconstruct : bool) (cur : nat) (cache : option nat) (ops : list c12_op) : list (nat * nat) :=
+  match ops with
+  | [] => []
+  | C12Mutate :: ops' => c12_run_ops reconstruct (S cur) cache ops'
+  | C12Remap :: ops' =>
+      let v := c12_tree_version reconstruct cur cache in
+      (v, cur) :: c12_run_ops reconstruct cur (Some v) ops'
+  end.
